@@ -1478,14 +1478,13 @@ class UserSessionManager(Service, discriminator="user-session-manager"):
         """End a user session by username or user object."""
         if isinstance(user, str):
             user = self._user_manager.users[user]  # grab user object from username
-        for sess_id, session in self.remote_sessions.items():
+        logged_out = False
+        for sess_id, session in list(self.remote_sessions.items()):
             if session.user is user:
-                self._logout(local=False, remote_session_id=sess_id)
-                return True
+                logged_out = self._logout(local=False, remote_session_id=sess_id) or logged_out
         if self.local_user_logged_in and self.local_session.user is user:
-            self.local_logout()
-            return True
-        return False
+            logged_out = self.local_logout() or logged_out
+        return logged_out
 
     @property
     def local_user_logged_in(self) -> bool:
